@@ -117,7 +117,7 @@ class Setup:
         """C05: nothing is left that still occupies capacity."""
         pool = self.pool
         P.check(
-            len(pool._requests) == 0,
+            scen.n_requests(pool) == 0,
             "request-forgotten",
             lambda: f"{prefix}request still queued in pool: {scen.pool_summary(pool)}",
         )
